@@ -166,7 +166,7 @@ theorem ens_c1 (pb : Problem) : ensureV (.arr2 true pb.height pb.width (c1 pb)) 
     obtain ⟨i, _, rfl⟩ := he
     rfl)
 
-theorem sameIsland_v {pb : Problem} (hwf : WellFormed pb) :
+theorem sameIsland_v {pb : Problem} (_hwf : WellFormed pb) :
     sameIsland (.arr2 true pb.height pb.width (bvars (wb pb) (N pb)))
       (.arr2 false pb.height pb.width (ivars 0 (N pb))) 2 1
       (.pair (sl none (some (-1))) fullSlice) (.pair (sl (some 1) none) fullSlice) = .ok (c2 pb) := by
@@ -202,7 +202,7 @@ theorem sameIsland_v {pb : Problem} (hwf : WellFormed pb) :
     rfl)]
   rfl
 
-theorem sameIsland_h {pb : Problem} (hwf : WellFormed pb) :
+theorem sameIsland_h {pb : Problem} (_hwf : WellFormed pb) :
     sameIsland (.arr2 true pb.height pb.width (bvars (wb pb) (N pb)))
       (.arr2 false pb.height pb.width (ivars 0 (N pb))) 1 2
       (.pair fullSlice (sl none (some (-1)))) (.pair fullSlice (sl (some 1) none)) = .ok (c3 pb) := by
@@ -365,7 +365,7 @@ theorem dc_eq {pb : Problem} (hwf : WellFormed pb) :
     divisionConnected (Graph.grid pb.height pb.width) (ivars 0 (N pb)) (K pb + 1) (some (rootsOf pb)) false false (N pb)
       = .ok (dc pb) := by
   rw [ivars_zero]
-  exact C05L1.div_eq_prog (Nat.mul_pos hwf.1 hwf.2.1) (C04Prim.grid_wf _ _) (by simp [dvs, N, Graph.grid])
+  exact C05L1.div_eq_prog (Nat.mul_pos hwf.1 hwf.2.1) (C04Prim.grid_wf _ _) (by simp [N, Graph.grid])
     (dvs_isIntLike pb) (fun c r h => by
       have := root_lt (pb := pb) c r (by simpa using h)
       simpa [dvs] using this)
